@@ -18,7 +18,7 @@ RULE = (
     "agree too; two jobs exist both as a directly created CsvPath and as a CsvPaths-managed run and must give the same lines, variables, verdict and counters; non-trivial = the history contains two different jobs; state = (job, position in history)"
 )
 BOUNDS = {
-    "quick": "26 jobs: 26 fresh-process references + 12 warm-cache fresh processes; all 676 ordered pairs (fresh CsvPaths per job) + 144 ordered pairs of CsvPaths jobs on ONE shared instance + 1,000 triples over a 10-job subset",
+    "quick": "29 jobs (three under non-default dialects): 29 fresh-process references + 14 warm-cache fresh processes; all 676 ordered pairs (fresh CsvPaths per job) + 144 ordered pairs of CsvPaths jobs on ONE shared instance + 1,000 triples over a 10-job subset",
     "thorough": "all pairs, all 17,576 triples, shared-instance triples, sequences of 4 over a 6-job subset",
 }
 CHUNK = 20
@@ -65,12 +65,15 @@ JOBS = [
     {"kind": "paths", "match": "[@n = count_headers()]", "rows": A},
     {"kind": "paths", "match": '[#0 == "n" -> reset_headers() @n = count_headers()]', "rows": A},
     {"kind": "path", "match": '[append("extra", "x") @n = count_headers()]', "rows": A},
+    {"kind": "paths", "match": '[push("h", header_name(1)) @n = count_headers() #h1 == "k"]', "rows": A, "dialect": [";", '"']},
+    {"kind": "paths", "match": '[push("h", header_name(1)) @n = count_headers()]', "rows": HQ2, "dialect": [",", "'"]},
+    {"kind": "path", "match": '[push("h", header_name(1)) @n = count_headers() #h1 == "k"]', "rows": A, "dialect": [";", '"']},
 ]
 PATHS_JOBS = [i for i, j in enumerate(JOBS) if j["kind"] == "paths"]
 SUB10 = [0, 1, 2, 3, 4, 5, 12, 14, 17, 19]
 SUB6 = [1, 2, 5, 14, 17, 21]
 
-TWINS = [(7, 20), (12, 14)]  # same csvpath and file: CsvPath created directly vs by a CsvPaths instance
+TWINS = [(7, 20), (12, 14), (28, 26)]  # same csvpath and file: CsvPath created directly vs by a CsvPaths instance
 
 REFS = {}
 WARM = {}
@@ -144,9 +147,10 @@ def run_job(job, fresh=False, shared=None):
 
     rows = job["rows"]
     rec = {}
+    dl, qc = job.get("dialect") or [",", '"']
     if job["kind"] == "path":
-        path = sandbox.write_csv(rows)
-        o = run.run_csvpath(f"${path}[*]{job['match']}")
+        path = sandbox.write_csv(rows, delimiter=dl, quotechar=qc)
+        o = run.run_csvpath(f"${path}[*]{job['match']}", delimiter=dl, quotechar=qc)
         rec = {
             "lines": o["lines"], "vars": o["vars"], "printouts": o["printouts"], "is_valid": o["is_valid"],
             "errors": [[e[0], e[1]] for e in o["errors"]], "exc": o["exc"][0] if o["exc"] else None,
@@ -157,13 +161,14 @@ def run_job(job, fresh=False, shared=None):
         from mcx import groups
 
         if shared is not None:
-            if "cp" not in shared:
-                shared["cp"] = CsvPaths(print_default=False)
-            cp = shared["cp"]
+            k = "cp" + dl + qc
+            if k not in shared:
+                shared[k] = CsvPaths(print_default=False, delimiter=dl, quotechar=qc)
+            cp = shared[k]
         else:
-            cp = CsvPaths(print_default=False)
+            cp = CsvPaths(print_default=False, delimiter=dl, quotechar=qc)
         src = os.path.join(sandbox.root(), "data", "c19src.csv")
-        sandbox.write_csv(rows, path=src)
+        sandbox.write_csv(rows, path=src, delimiter=dl, quotechar=qc)
         name = "d" + run.h64(rows)
         g = "g" + run.h64(job["match"])
         exc = None
